@@ -340,7 +340,7 @@ class SmartCloudSync(CloudSync):
                 raise ex.CloudFileNotFoundError(remote_oid)
             self._smart_unsync_ent(ent)
             ent = self.state.smart_unsync_oid(remote_oid)
-            return ent[LOCAL].path
+            return ent[LOCAL].path if ent else None
 
     def smart_unsync_path(self, path, side):
         """Delete a file locally, but leave it in the cloud"""
